@@ -8,4 +8,6 @@ for m in spec/*.tla; do
   ( cd spec && java -cp /opt/veriftools/tla/tla2tools.jar:/opt/veriftools/tla/CommunityModules-deps.jar tla2sany.SANY "$(basename "$m")" >/dev/null 2>&1 ) || { echo "SANY failed on $m"; exit 1; }
 done
 /venv/bin/python -c "import sys; sys.path.insert(0,'harness'); import protoextract; d=protoextract.extract(); print('protocol data:', len(d['proto']), 'interfaces')"
+mkdir -p out/bin
+gcc -g -O0 -pthread -o out/bin/mockwl harness/mockwl.c
 echo setup ok
